@@ -33,15 +33,9 @@ def slow_code1 (P : Prim K) (dn nom up a : K) : K :=
 /-- `code1.py::code1` (source sha256 995631d9da8443f2…), one cell -/
 def fast_code1 (P : Prim K) (dn nom up a : K) : K :=
   if (0.0 : K) < a then
-    if (0.0 : K) < a then
-      (P.pow ((0.0 : K) + ((1.0 : K) * (up / nom))) ((0.0 : K) + (a * (1.0 : K))))
-    else
-      (P.pow ((0.0 : K) + ((1.0 : K) * (up / nom))) ((0.0 : K) + ((-a) * (1.0 : K))))
+    (P.pow ((0.0 : K) + ((1.0 : K) * (up / nom))) ((0.0 : K) + (a * (1.0 : K))))
   else
-    if (0.0 : K) < a then
-      (P.pow ((0.0 : K) + ((1.0 : K) * (dn / nom))) ((0.0 : K) + (a * (1.0 : K))))
-    else
-      (P.pow ((0.0 : K) + ((1.0 : K) * (dn / nom))) ((0.0 : K) + ((-a) * (1.0 : K))))
+    (P.pow ((0.0 : K) + ((1.0 : K) * (dn / nom))) ((0.0 : K) + ((-a) * (1.0 : K))))
 
 /-- `code2.py::_slow_code2` (source sha256 d55c50a7fb9e208a…), one cell -/
 def slow_code2 (P : Prim K) (dn nom up a : K) : K :=
